@@ -373,6 +373,9 @@ class ComputeLikelihood:
             i = z3.Int('i!zr')
             rate = apprx_rate_density
             if c.ctx.branch(z3.Exists([i], z3.And(0 <= i, i < to_z3(g.shape[0]), to_real(g.f((i,))) != 0, to_real(rate.f((i,))) == 0))):
+                # the normalised score is returned as NaN before any logarithm when n_obs or the expected count is 0
+                if c.ctx.branch(z3.Or(to_real(n_obs) == 0, to_real(expected_cond_count) == 0)):
+                    return (Opaque('inf', sign=-1), NAN)
                 return (Opaque('inf', sign=-1), Opaque('inf', sign=-1))
         plh = c.ctx.fresh_real('pseudo_likelihood')
         if c.ctx.branch(undefined):
